@@ -409,6 +409,31 @@ def run(chk, repo):
     chk.decide(len(em) == 1 and unparse(em[0].body[0]) == "return self.zero", "C07.eval", W("Poly.__call__"),
                "empty polynomial evaluates to the zero value", why="empty sum", node=call)
     hs = [f for f in ast.walk(call) if isinstance(f, FuncTypes) and f.name == "horner_step"]
+    loop_horner = None
+    if not hs:
+        # the step written in line:  last_power, result = next(pairs) ; for power, coeff in pairs: <step>
+        for lp_ in [n for n in ast.walk(call) if isinstance(n, ast.For) and isinstance(n.target, ast.Tuple) and len(n.target.elts) == 2]:
+            stores_ = {unparse(t_) for s_ in ast.walk(lp_) if isinstance(s_, ast.Assign) for t_ in s_.targets}
+            if {"result", "last_power"} <= stores_:
+                loop_horner = lp_
+        if loop_horner is not None:
+            ren = {unparse(loop_horner.target.elts[0]): "npower", unparse(loop_horner.target.elts[1]): "ncoeff",
+                   "last_power": "opower", "result": "oresult"}
+
+            class _Ren(ast.NodeTransformer):
+                def visit_Name(self, n):
+                    if n.id in ren:
+                        return ast.Name(id=ren[n.id], ctx=n.ctx)
+                    return n
+            src_ = "def horner_step(old, new):\n    opower, oresult = old\n    npower, ncoeff = new\n    pass\n    return (opower, oresult)\n"
+            synth = ast.parse(src_).body[0]
+            bodyc = [_Ren().visit(ast.parse(unparse(s_)).body[0]) for s_ in loop_horner.body]
+            synth.body = synth.body[:2] + bodyc + synth.body[-1:]
+            ast.fix_missing_locations(synth)
+            for n_ in ast.walk(synth):
+                if hasattr(n_, "lineno"):
+                    n_.lineno = loop_horner.lineno
+            hs = [synth]
     chk.require(len(hs) == 1, "Poly.__call__: horner_step not found")
     hb = docstring_free(hs[0].body)
     try:
@@ -437,7 +462,7 @@ def run(chk, repo):
 
             class _S(ast.NodeTransformer):
                 def visit_Name(self, n):
-                    if n.id in subst_src and isinstance(n.ctx, ast.Load):
+                    if n.id in subst_src and isinstance(n.ctx, ast.Load) and n.id not in lenv:
                         return ast.parse(subst_src[n.id], mode="eval").body
                     return n
             # locals of the leaf (scale = ...) resolved in order; IfExp on the same equality resolved by the path
@@ -472,10 +497,11 @@ def run(chk, repo):
                             v_ = v_.orelse
                     lenv[s_.targets[0].id] = Evaluator(lenv).ev(_S().visit(ast.parse(unparse(v_), mode="eval").body))
             rv = rets[-1].value
-            ok_ret = isinstance(rv, ast.Tuple) and len(rv.elts) == 2 and unparse(rv.elts[0]) == "npower"
+            ok_ret = isinstance(rv, ast.Tuple) and len(rv.elts) == 2 and (
+                unparse(rv.elts[0]) == "npower" or (isinstance(rv.elts[0], ast.Name) and lenv.get(rv.elts[0].id) == RF.sym("npower")))
             if ok_ret:
                 got = Evaluator(lenv).ev(_S().visit(ast.parse(unparse(rv.elts[1]), mode="eval").body))
-                expo = Evaluator().ev(_S().visit(ast.parse("opower - npower", mode="eval").body))
+                expo = (subst["opower"] if "opower" in subst else RF.sym("opower")) - RF.sym("npower")
                 try:
                     want = RF.sym("ncoeff") + RF.sym("oresult") * (x ** expo.as_int())
                 except Inconclusive:
@@ -490,7 +516,8 @@ def run(chk, repo):
                    why="Horner recurrence broken: %s" % ("; ".join(detail) or "operand unpacking changed"), node=hs[0])
     except Inconclusive as ex:
         raise AnalysisError("horner_step not interpretable: %s" % ex)
-    pr = [n for n in ast.walk(call) if isinstance(n, ast.Assign) and unparse(n.targets[0]) == "pairs"]
+    pr = [n for n in ast.walk(call) if isinstance(n, ast.Assign) and unparse(n.targets[0]) == "pairs"
+          and unparse(n.value) != "iter(pairs)"]
     chk.decide(len(pr) == 1 and unparse(pr[0].value) == "self.terms(sort=True, reverse=True)", "C07.eval",
                W("Poly.__call__"), short(pr[0]) if pr else "pairs missing", why="Horner needs descending powers", node=call)
     fin = [n for n in ast.walk(call) if isinstance(n, ast.Return) and "last_power" in unparse(n)]
@@ -503,9 +530,17 @@ def run(chk, repo):
     chk.decide(ok, "C07.eval", W("Poly.__call__"), short(fin[0]) if fin else "final return missing",
                why="remaining factor x ** last_power must be applied", node=call)
     red = [n for n in ast.walk(call) if isinstance(n, ast.Assign) and "reduce(horner_step, pairs)" in unparse(n.value)]
-    chk.decide(len(red) == 1 and unparse(red[0].targets[0]) == "(last_power, result)" or
-               (len(red) == 1 and unparse(red[0].targets[0]) == "last_power, result"), "C07.eval", W("Poly.__call__"),
-               short(red[0]) if red else "reduce missing", why="fold the step over all pairs", node=call)
+    if loop_horner is not None:
+        first_ = [n for n in ast.walk(call) if isinstance(n, ast.Assign) and unparse(n.targets[0]) in ("(last_power, result)", "last_power, result")
+                  and isinstance(n.value, ast.Call) and unparse(n.value.func) == "next"]
+        itn_ = unparse(first_[0].value.args[0]) if len(first_) == 1 else None
+        chk.decide(len(first_) == 1 and unparse(loop_horner.iter) == itn_, "C07.eval", W("Poly.__call__"),
+                   "explicit fold: %s ; for %s in %s" % (short(first_[0]) if first_ else "?", unparse(loop_horner.target), unparse(loop_horner.iter)),
+                   why="fold the step over all pairs, starting from the first one", node=call)
+    else:
+        chk.decide(len(red) == 1 and unparse(red[0].targets[0]) == "(last_power, result)" or
+                   (len(red) == 1 and unparse(red[0].targets[0]) == "last_power, result"), "C07.eval", W("Poly.__call__"),
+                   short(red[0]) if red else "reduce missing", why="fold the step over all pairs", node=call)
     sums = [n for n in own_nodes(call) if isinstance(n, ast.Return) and isinstance(n.value, ast.Call)
             and unparse(n.value.func) == "sum" and n.value.args and isinstance(n.value.args[0], ast.GeneratorExp)
             and "terms" in unparse(n.value.args[0].generators[0].iter)]
